@@ -11,8 +11,10 @@ import (
 	"os"
 	"path/filepath"
 	"reflect"
+	"slices"
 	"sort"
 	"strconv"
+	"sync"
 	"sync/atomic"
 	"time"
 
@@ -173,6 +175,15 @@ func (a absPatch) event(k int) Event {
 type parkClient struct {
 	resolve.Client
 	dead atomic.Bool
+	mu   *sync.Mutex // serialises access to the underlying LocalClient (it sorts its own slices in place on reads)
+}
+
+func (p *parkClient) lock() func() {
+	if p.mu == nil {
+		return func() {}
+	}
+	p.mu.Lock()
+	return p.mu.Unlock
 }
 
 func (p *parkClient) park() {
@@ -180,21 +191,39 @@ func (p *parkClient) park() {
 		select {}
 	}
 }
+// Every slice is handed out as a fresh copy: the deps.dev Maven resolver sorts and reverses the slice it gets from
+// Versions() in place (maven.findMatch) while the concurrent patch attempts of ComputePatches read the same
+// slice (override.getVersionsGreater); resolve.LocalClient returns its internal slices and even sorts them in place
+// inside MatchingVersions, so without the copy and the mutex the attempts race and results become schedule
+// dependent (observed: ~0.3 % of runs). Production clients (clients/resolution/*) build a new slice per call,
+// so this is a property of the test client, not of /repo.
 func (p *parkClient) Version(ctx context.Context, vk resolve.VersionKey) (resolve.Version, error) {
 	p.park()
+	defer p.lock()()
 	return p.Client.Version(ctx, vk)
 }
 func (p *parkClient) Versions(ctx context.Context, pk resolve.PackageKey) ([]resolve.Version, error) {
 	p.park()
-	return p.Client.Versions(ctx, pk)
+	defer p.lock()()
+	v, err := p.Client.Versions(ctx, pk)
+	return slices.Clone(v), err
 }
 func (p *parkClient) Requirements(ctx context.Context, vk resolve.VersionKey) ([]resolve.RequirementVersion, error) {
 	p.park()
-	return p.Client.Requirements(ctx, vk)
+	defer p.lock()()
+	v, err := p.Client.Requirements(ctx, vk)
+	out := make([]resolve.RequirementVersion, len(v))
+	for i := range v {
+		out[i] = v[i]
+		out[i].Type = v[i].Type.Clone()
+	}
+	return out, err
 }
 func (p *parkClient) MatchingVersions(ctx context.Context, vk resolve.VersionKey) ([]resolve.Version, error) {
 	p.park()
-	return p.Client.MatchingVersions(ctx, vk)
+	defer p.lock()()
+	v, err := p.Client.MatchingVersions(ctx, vk)
+	return slices.Clone(v), err
 }
 
 var hangsSeen atomic.Int64
@@ -251,10 +280,12 @@ func runCase(e *Env, idx int, c *Case, limit time.Duration) (*Out, error) {
 		out.Findings = append(out.Findings, Finding{prop, kind, what, data})
 	}
 
-	cl, err := s.client()
+	baseCl, err := s.client()
 	if err != nil {
 		return nil, fmt.Errorf("schema: %w", err)
 	}
+	// never marked dead; the only holder of the LocalClient, hence the mutex lives here
+	var cl resolve.Client = &parkClient{Client: baseCl, mu: &sync.Mutex{}}
 	if msg := s.checkRendering(); msg != "" {
 		out.Harness = msg
 	}
